@@ -240,7 +240,11 @@ class Interp:
         return fn
 
     def is_repo_func(self, f):
-        return isinstance(f, types.FunctionType) and (f.__module__ or "").startswith(self.module_prefixes)
+        if not isinstance(f, types.FunctionType) or not (f.__module__ or "").startswith(self.module_prefixes):
+            return False
+        # methods generated by @dataclass (__init__/__eq__/__repr__ compiled from a string) have no source in the module:
+        # they are value-agnostic field plumbing and run natively
+        return f.__code__.co_filename != "<string>"
 
     # -- calls ---------------------------------------------------------------------------------------------------------
     def call(self, f, args, kwargs=None):
@@ -391,7 +395,10 @@ class Interp:
             if isinstance(init, types.FunctionType) and self.is_repo_func(init):
                 self.call_ifunc(self.lift_function(init), [obj] + list(args), kwargs)
             elif init is not object.__init__ and init is not None:
-                init(obj, *[unwrap(a) for a in args], **{k: unwrap(v) for k, v in kwargs.items()})
+                if getattr(getattr(init, "__code__", None), "co_filename", "") == "<string>" and hasattr(cls, "__dataclass_fields__"):
+                    init(obj, *args, **kwargs)  # dataclass-generated __init__: plain field assignment
+                else:
+                    init(obj, *[unwrap(a) for a in args], **{k: unwrap(v) for k, v in kwargs.items()})
         return obj
 
     def bind(self, fn: IFunc, args, kwargs):
